@@ -911,7 +911,6 @@ struct static_array<T, ::boost::multi::dimensionality_type{0}, Alloc>  // NOLINT
 		typename = std::enable_if_t<std::is_same_v<ValueType, value_type>> >  // NOLINT(modernize-use-constraints) TODO(correaa) for C++20
 	explicit static_array(typename static_array::index_extension const& extension, ValueType const& value, allocator_type const& alloc)  // 3
 	: static_array(extension * extensions(value), alloc) {
-		assert(this->stride() != 0);
 		using std::fill;
 		fill(this->begin(), this->end(), value);
 	}
@@ -919,30 +918,25 @@ struct static_array<T, ::boost::multi::dimensionality_type{0}, Alloc>  // NOLINT
 		typename = std::enable_if_t<std::is_same_v<ValueType, value_type> >>  // NOLINT(modernize-use-constraints) TODO(correaa) for C++20
 	explicit static_array(typename static_array::index_extension const& extension, ValueType const& value)  // 3  // TODO(correaa) : call other constructor (above)
 	: static_array(extension * extensions(value)) {
-		assert(this->stride() != 0);
 		using std::fill;
 		fill(this->begin(), this->end(), value);
 	}
 
 	explicit static_array(typename static_array::extensions_type const& extensions, allocator_type const& alloc)  // 3
 	: array_alloc{alloc}, ref(static_array::allocate(typename static_array::layout_t{extensions}.num_elements()), extensions) {
-		assert(this->stride() != 0);
 		uninitialized_value_construct();
 	}
 	explicit static_array(typename static_array::extensions_type const& extensions)  // 3
 	: static_array(extensions, allocator_type{}) {
-		assert(this->stride() != 0);
 	}
 
 	static_array(static_array const& other, allocator_type const& alloc)  // 5b
 	: array_alloc{alloc}, ref(static_array::allocate(other.num_elements()), extensions(other)) {
-		assert(this->stride() != 0);
 		uninitialized_copy_(other.data_elements());
 	}
 
 	static_array(static_array const& other)  // 5b
 	: array_alloc{other.get_allocator()}, ref{static_array::allocate(other.num_elements(), other.data_elements()), {}} {
-		assert(this->stride() != 0);
 		uninitialized_copy(other.data_elements());
 	}
 
